@@ -48,6 +48,9 @@ class ResponseHandler(BaseProtocol, DataQueue[tuple[RawResponseMessage, StreamRe
 
         self._read_timeout: float | None = None
         self._read_timeout_handle: asyncio.TimerHandle | None = None
+        # start_timeout() was called for the current request: it has been sent
+        # completely and we are waiting for the peer
+        self._read_timeout_started = False
 
         self._timeout_ceil_threshold: float | None = 5
 
@@ -251,6 +254,7 @@ class ResponseHandler(BaseProtocol, DataQueue[tuple[RawResponseMessage, StreamRe
         self._skip_payload = skip_payload
 
         self._read_timeout = read_timeout
+        self._read_timeout_started = False
 
         self._timeout_ceil_threshold = timeout_ceil_threshold
 
@@ -290,6 +294,7 @@ class ResponseHandler(BaseProtocol, DataQueue[tuple[RawResponseMessage, StreamRe
             self._read_timeout_handle = None
 
     def start_timeout(self) -> None:
+        self._read_timeout_started = True
         self._reschedule_timeout()
 
     @property
@@ -374,8 +379,17 @@ class ResponseHandler(BaseProtocol, DataQueue[tuple[RawResponseMessage, StreamRe
             # EMPTY_PAYLOAD
             if payload is not EMPTY_PAYLOAD:
                 payload.on_eof(self._drop_timeout)
-            else:
+            elif (
+                message.code >= 200
+                or message.code == 101
+                or not self._read_timeout_started
+            ):
                 self._drop_timeout()
+            # else: a 1xx interim response after the request was sent
+            # completely: the final head is still to come, keep the (just
+            # re-armed) read timeout running.  While the request body is
+            # still being written (e.g. after 100 Continue) nobody waits for
+            # the peer yet and the timeout is dropped as before.
 
         if upgraded and tail:
             self.data_received(tail)
